@@ -2513,14 +2513,15 @@ func LexProgressRule(w *World, r *Result, rule string) {
 			}
 			// the outermost scanning loop ends through the unknown-token error when no arm matched;
 			// showing that needs the contents of the token variable (value reasoning), which is
-			// out of reach here: only the loops nested in it are decided
+			// out of reach here: of the entry function only the loops nested in it are decided (the loops
+			// of scanning helpers are all decided)
 			nested := false
 			for h2 := range headers {
 				if h2 != hdr && loopBody(h2)[hdr] {
 					nested = true
 				}
 			}
-			if !nested {
+			if !nested && fn.Pos() == lf.Tokenize.Name.Pos() {
 				continue
 			}
 			body := loopBody(hdr)
